@@ -105,8 +105,27 @@ def corpus():
     ]
 
 
-def gen_T(rng, exhaustive):
+def probe_T():
+    """C18 only (the crash signatures of F75-F78 are C18's)."""
     out = []
+    # using a directly built CTrait whose handler's fields were never filled (F75, F76, F77, F78): the outcome
+    # of obj.z / obj.z = 1 / del obj.z is an exception class or a value, compared with probeGet/Set/Del
+    out.append("T|new 3;probe")
+    out.append("T|new 7;probe")
+    out.append("T|new 7;default 0;probe")
+    for k in range(-1, 13):
+        out.append("T|new 0;default %d;probe" % k)
+    for b in (0, 1):
+        for hv in (0, 1):
+            out.append("T|new 4;property 1 2 1 %d;post %d;probe" % (hv, b))
+            out.append("T|new 0;property 0 3 2 %d;post %d;probe" % (hv, b))
+    return out
+
+
+def gen_T(rng, exhaustive, probes=False):
+    out = []
+    if exhaustive and probes:
+        out += probe_T()
     if exhaustive:
         for k in range(-2, 13):
             out.append("T|new %d" % k)
@@ -235,6 +254,24 @@ def run_t(case):
     ops = [o.strip() for o in case.split("|", 1)[1].split(";") if o.strip()]
     ans = _server().request({"k": "T", "ops": ops})
     tags = ["T:" + o.split()[0] for o in ops]
+    if "crash" in ans and "probe" in ops:
+        # using the trait (obj.z, obj.z = 1, del obj.z) killed the interpreter: name the unfilled field
+        kind = ops[0].split()[-1]
+        dflt = [o.split()[1] for o in ops if o.startswith("default ")]
+        if any(o.startswith("property") and o.endswith(" 1") for o in ops) and "post 0" in ops:
+            sig = "crash:raw-ctrait:validated-property-post-setattr-none"
+        elif kind == "3" and not any(o.startswith("delegate") for o in ops):
+            sig = "crash:raw-ctrait:delegate-kind-without-delegate"
+        elif kind == "7" and not dflt:
+            sig = "crash:raw-ctrait:constant-kind-without-default"
+        elif dflt and dflt[-1] in ("5", "6", "9"):
+            sig = "crash:raw-ctrait:container-default-without-handler"
+        else:
+            sig = "crash:raw-ctrait:probe"
+        return "crash", [{"signature": sig,
+                          "what": "using the CTrait built by [%s] killed the interpreter (%s)" % (
+                              "; ".join(ops), SUB.crash_summary(ans)),
+                          "stderr_tail": ans.get("stderr", "")[-1200:]}], tags + ["T:crash"]
     if "crash" in ans:
         fam = "validated-property" if any(o.startswith("property") and o.endswith(" 1") for o in ops) else "T"
         return "crash", [{"signature": "ctrait-getstate-crash:" + fam,
@@ -245,7 +282,7 @@ def run_t(case):
         return "harness-exception " + ans["error"], [], tags
     out = ans["out"]
     hits = []
-    if out.startswith("idx") and not out.endswith("same"):
+    if out.startswith("idx") and " same" not in out:
         hits.append({"signature": "ctrait-roundtrip-handlers-differ:T", "what": "indices change across a round trip: " + out})
     return out, hits, tags
 
